@@ -459,6 +459,7 @@ func runScenario(sc scenario) func(t *testing.T, x *gate.Exec) {
 		idleSleeps := 0
 		stuck := false
 		endedDrained := false
+		sthServedSoFar := func() int { w.mu.Lock(); defer w.mu.Unlock(); return len(w.sthServed) }
 		reOut := map[string]bool{} // batches answered ResourceExhausted whose retry has not been answered yet
 		for steps := 0; ; steps++ {
 			synctest.Wait()
@@ -532,6 +533,17 @@ func runScenario(sc scenario) func(t *testing.T, x *gate.Exec) {
 						} else if !drained {
 							add(fmt.Sprintf("%s <- STH(%d)", p.Key, w.size), base, func() { env.Answer(p, srcAnswer{kind: "ok"}) })
 						}
+						// the source publishes between two get-sth calls of one pass (one-shot mode never asks twice
+						// per pass; a controller that does must not copy beyond what it verified)
+						if faults > 0 && !sc.Continuous && sthServedSoFar() > 0 && w.size+2 <= len(entries) {
+							add(fmt.Sprintf("publish 2 then %s <- STH(%d)", p.Key, w.size+2), base+1, func() {
+								faults--
+								w.mu.Lock()
+								w.size += 2
+								w.mu.Unlock()
+								env.Answer(p, srcAnswer{kind: "ok"})
+							})
+						}
 						fault("STH with bad signature", srcAnswer{kind: "badsig"})
 						fault("500", srcAnswer{kind: "500"})
 					case "get-sth-consistency":
@@ -546,6 +558,7 @@ func runScenario(sc scenario) func(t *testing.T, x *gate.Exec) {
 						}
 						if full >= 1 {
 							add(fmt.Sprintf("%s <- %d entries", p.Key, full), base, func() { env.Answer(p, srcAnswer{kind: "ok", n: int(full)}) })
+							fault("0 entries", srcAnswer{kind: "ok", n: 0})
 							for n := int64(1); n < full; n++ {
 								fault(fmt.Sprintf("short %d", n), srcAnswer{kind: "ok", n: int(n)})
 							}
